@@ -384,6 +384,12 @@ func (e *Engine) step(p *partition, row map[string]any, ts, seq int64) []map[str
 	// 1. 推进现有 run（含未界完成：mr 不属于但 run 已可接受）。
 	for _, r := range p.runs {
 		if !e.withinOk(r, ts) || r.nrows > e.maxRunRows {
+			// The run ends here. If it is accepting, the rows it holds are the longest match of
+			// its start that fits in WITHIN: keep them as a completion (only the shorter prefix
+			// recorded one row earlier would be reported otherwise).
+			if !e.lazy && hasAccept(r.states) {
+				completions = append(completions, r)
+			}
 			continue // 超期/超长：丢弃
 		}
 		succ := e.advance(r, row)
